@@ -185,7 +185,6 @@ func pairCase(t *engine.T, A, B gen.ListSpec) *engine.Violation {
 	return nil
 }
 
-
 // nearVersions: the two operands hold versions of the shared node that are one single-field deviation
 // apart - reorderings of set-valued lists and sub-second date changes (which the library's own
 // equality cannot see) included. The precedence rule is judged field by field on exact snapshots.
@@ -203,7 +202,9 @@ func nearVersions(c *engine.Ctx) {
 	for di := range devs {
 		for side := 0; side < 2; side++ {
 			di, side := di, side
-			c.Case(func() any { return map[string]any{"deviation": devs[di].Label, "kind": devs[di].Kind, "deviated-operand": []string{"first", "second"}[side]} }, func(t *engine.T) *engine.Violation {
+			c.Case(func() any {
+				return map[string]any{"deviation": devs[di].Label, "kind": devs[di].Kind, "deviated-operand": []string{"first", "second"}[side]}
+			}, func(t *engine.T) *engine.Violation {
 				mk := func() (*sbom.NodeList, *sbom.NodeList) {
 					na, nb := base(), base()
 					if side == 0 {
